@@ -408,10 +408,11 @@ func SimC01(c *CheckCtx, i int, r *Rng) error {
 	}
 	victim := &RunOp{Args: args, Gens: gens, Sched: drawSched(r), Fresh: true}
 	var setup []Op
-	if r.P(0.3) {
+	dated := i%6 == 1 && !twoModules
+	if r.P(0.3) || dated {
 		// files exist already: the open truncates instead of creating
 		setupGens := gens
-		if r.P(0.5) {
+		if r.P(0.5) || dated {
 			// ... written by other versions of the generators: the victim run has to CHANGE them
 			setupGens = []proto.GenScript{Probe()}
 			for k, n := range names {
@@ -423,6 +424,16 @@ func SimC01(c *CheckCtx, i int, r *Rng) error {
 		}
 		setup = append(setup, Op{Kind: "run", Run: &RunOp{Args: args, Gens: setupGens, Sched: simrt.Schedule{Default: "asc"}, Fresh: true}})
 		switch {
+		case dated:
+			// ... and every sixth simulation dates them into the future (or makes them read-only)
+			for _, pi := range eps {
+				if r.P(0.7) {
+					setup = append(setup, Op{Kind: "outclock", K: pi, How: "future"})
+				} else {
+					setup = append(setup, Op{Kind: "protect", K: pi})
+				}
+			}
+			victim.Args.Force = true
 		case r.P(0.3):
 			// ... as links to files kept elsewhere
 			setup = append(setup, Op{Kind: "linkout", K: Pick(r, eps)})
